@@ -61,7 +61,7 @@ impl<'a> G<'a> {
     }
 
     fn int(&mut self, d: u32) -> String {
-        let top = if d == 0 { 4 } else { 28 };
+        let top = if d == 0 { 4 } else { 31 };
         for _ in 0..4 {
             match self.p.below(top) {
                 0 => return format!("{}", self.p.range(0, 9)),
@@ -235,6 +235,28 @@ impl<'a> G<'a> {
                         return format!("({a}, {b}, {c}).{}", self.p.below(3));
                     }
                     return format!("({a}, {b}).{}", self.p.below(2));
+                }
+                28 => {
+                    // the callee is itself an effectful expression: it is evaluated before the
+                    // arguments (call of a call result)
+                    let a = self.int(d - 1);
+                    let b = self.int(d - 1);
+                    return format!("choose({a})({b})");
+                }
+                29 => {
+                    // callee taken out of an array of functions by an effectful index
+                    let t = self.t();
+                    let i = if self.cfg.failing_ops && self.p.chance(1, 4) { self.int(d - 1) } else { format!("p(\"{t}\", {})", self.p.range(0, 1)) };
+                    let b = self.int(d - 1);
+                    return format!("array_get([fa, fb], {i})({b})");
+                }
+                30 => {
+                    // function value bound once, applied twice
+                    let a = self.int(d - 1);
+                    let b = self.int(d - 1);
+                    let c = self.int(d - 1);
+                    let cf = self.fresh("cf");
+                    return format!("(match choose({a}) {{ {cf} => ({cf}({b}) - {cf}({c})) }})");
                 }
                 25 => {
                     let st = self.string(d - 1);
@@ -536,6 +558,13 @@ impl<'a> G<'a> {
                     self.go_depth -= 1;
                     s.push_str(&format!("{pad}go || {{\n{body}{pad}    ()\n{pad}}};\n"));
                 }
+                11 if self.cfg.nested_go || self.p.chance(1, 4) => {
+                    // `go` applied to the result of a call: the call (and its arguments) belong
+                    // to the spawner, only the returned closure runs concurrently
+                    let c = self.cell();
+                    let e = self.int(d.min(2));
+                    s.push_str(&format!("{pad}go mkc({c}, {e});\n"));
+                }
                 10 if self.cfg.sleep => {
                     s.push_str(&format!("{pad}sleep(duration({}));\n", 100 * (1 + self.p.below(20))));
                 }
@@ -575,6 +604,9 @@ pub fn generate(p: &mut Prng, cfg: &ConcCfg) -> String {
     s.push_str("fn pb(tag: string, v: bool) -> bool {\n    string_println(tag);\n    v\n}\n\n");
     s.push_str("fn bump(r: Ref[int32], d: int32) -> int32 {\n    ref_set(r, ref_get(r) + d);\n    ref_get(r)\n}\n\n");
     s.push_str("fn add3(a: int32, b: int32, c: int32) -> int32 {\n    a + b * c\n}\n\n");
+    s.push_str("fn fa(v: int32) -> int32 {\n    string_println(\"fa\");\n    v + 1\n}\n\nfn fb(v: int32) -> int32 {\n    string_println(\"fb\");\n    v + 2\n}\n\n");
+    s.push_str("fn choose(n: int32) -> (int32) -> int32 {\n    string_println(\"ch\");\n    if n < 1 {\n        fa\n    } else {\n        fb\n    }\n}\n\n");
+    s.push_str("fn mkc(r: Ref[int32], v: int32) -> () -> unit {\n    string_println(\"mk\");\n    || {\n        ref_set(r, ref_get(r) + v);\n        string_println(\"mc\")\n    }\n}\n\n");
     s.push_str("fn ps(tag: string, v: string) -> string {\n    string_println(tag);\n    v\n}\n\n");
     s.push_str("fn idg[T](tag: string, x: T) -> T {\n    string_println(tag);\n    x\n}\n\n");
     s.push_str("fn rec(n: int32, r: Ref[int32]) -> int32 {\n    if n < 1 {\n        ref_get(r)\n    } else {\n        ref_set(r, ref_get(r) + n);\n        rec(n - 1, r)\n    }\n}\n\n");
